@@ -30,7 +30,9 @@ SPEC = {
     "level_text": "Theorems (Props/C16.v, all closed) over the Gallina transcription of Pin/pinProgress/pinUpdate/Unpin/PinLsCid/"
                   "checkResponse for every pin, prior daemon table and behaviour script; the transcription is compared with the real "
                   "Connector driven against a scripted HTTP daemon at every run (result class, requests received, final daemon table) "
-                  "and the implementation's own observation is checked against the boolean form of the property",
+                  "and the implementation's own observation is checked against the boolean form of the property. Monitor theorems (Proofs/C16_Monitor.v): "
+                  "every code 10..16 absent => its Prop-level clause (PinSpec/PinSpec2, UnpinSpec/UnpinSpec2, LsSpec); the model's own run, for every "
+                  "pin, table, script and admissible swarm-connect count, raises nothing but code 14 with the tag of the carried finding",
     "level_note": "partial: the daemon contract is an assumption about go-ipfs (stated in Model/C16_Connector.v); the watchdog's "
                   "wall-clock behaviour is sampled (margins >= 4x, re-measured), the model abstracts time to 'stalls longer than the timeout'",
     "assumptions": ["go-ipfs contract of pin/ls, pin/add, pin/rm, pin/update as stated in Model/C16_Connector.v",
